@@ -246,6 +246,26 @@ pub fn property(tier: Tier) -> Property {
             exhaustive: false,
         }));
     }
+    {
+        let mut cfg = MixedCfg::for_lang(LangId::Core);
+        cfg.max_ops = tier.pick(10, 16);
+        cfg.hist.namings = crate::tm::Naming::diverse();
+        cfg.hist.gen.alphabet = 5;
+        cfg.hist.gen.max_fv = 5;
+        cfg.hist.gen.max_depth = 2;
+        cfg.hist.gen.ops = Some(vec!["v", "f2", "g3", "g4", "h4", "g5", "c0", "p", "w", "lam", "t3"]);
+        cfg.hist.weights = [1, 1, 4, 3, 1, 2, 3, 1, 4, 1, 2, 5];
+        stages.push(Box::new(Stage {
+            name: "ops-core-wide",
+            source: random(move || mixed_strategy(cfg.clone()), tier.pick(1500, 30_000)),
+            run,
+            panic_is_violation: true,
+            render: |c: &Mixed| c.render(),
+            rule: "as ops-core, over a 5-name alphabet with leaves of up to 5 slots (symmetries that are products of cycles, several slots redundant in one step, orbits cut in the middle); same invariants",
+            case_timeout_s: tier.pick(30, 120),
+            exhaustive: false,
+        }));
+    }
     Property {
         id: "C08", scale: tier.pick(4, 2),
         stages,
